@@ -309,5 +309,61 @@ def c08_obligations(tier):
     return obs
 
 
+# ----------------------------------------------------------------------------- C16
+def c16_index(rate, width):
+    def run():
+        import z3
+        from engine import ksmt
+        from praatio import audio
+
+        fdef = ksmt.func_ast(audio.Wav._getIndexAtTime)
+        ret = ksmt.find_return(fdef)
+        t = z3.FP("t", ksmt.F64)
+
+        def make_env():
+            return {"startTime": t, "self": ksmt.Rec(["frameRate", "sampleWidth"], frameRate=rate, sampleWidth=width)}
+
+        paths = ksmt.explore([ret], make_env)
+        assume = [z3.fpLEQ(ksmt.fpv(0.0), t), z3.fpLEQ(t, ksmt.fpv(TWO20))]
+        claims = []
+        prod = z3.fpMul(ksmt.RNE, t, ksmt.fpv(rate))
+        for pc, env, oc in paths:
+            if oc[0] != "return":
+                claims.append((pc, True))
+                continue
+            idx = ksmt.to_fp(oc[1])
+            q = z3.fpDiv(ksmt.RNE, idx, ksmt.fpv(width))  # exact: idx < 2^53, width a power of two
+            whole = z3.fpEQ(q, z3.fpRoundToIntegral(z3.RTZ(), q))
+            near = z3.fpLEQ(z3.fpAbs(z3.fpSub(ksmt.RNE, q, prod)), ksmt.fpv(0.5))
+            claims.append((pc, z3.Not(z3.And(whole, near))))
+        return _solve(claims, {"t": t}, assume, 120)
+
+    return run
+
+
+def c16_index_replay(rate, width):
+    def body(t):
+        import struct
+
+        from praatio import audio
+
+        n = 8
+        frames = struct.pack("<" + {1: "b", 2: "h", 4: "i"}[width] * n, *range(1, n + 1))
+        w = audio.Wav(frames, [1, width, rate, n, "NONE", "not compressed"])
+        i = w._getIndexAtTime(t)
+        if i % width != 0:
+            return "byte index %d is not a whole number of samples" % i
+        if abs(i / width - t * rate) > 0.5:
+            return "not the nearest sample"
+        return True
+
+    return body
+
+
 def c16_obligations(tier):
-    return []
+    fn = ["praatio.audio.Wav._getIndexAtTime (return expression translated from the AST)"]
+    combos = [(16000, 2), (44100, 4), (8000, 1)] if tier == "quick" else [(r, w) for r in (8000, 16000, 22050, 44100, 48000, 65536) for w in (1, 2, 4)]
+    return [
+        Ob("fp-index-r%d-w%d" % (r, w), F("t"), c16_index_replay(r, w), kind="smt", smt=_guard(c16_index(r, w)), timeout=400, funcs=fn, bounds="binary64 t in [0,2^20], rate %d, width %d" % (r, w))
+        for r, w in combos
+    ]
